@@ -411,7 +411,10 @@ class SchemaGen:
             return t
         if t.kind == "opt" and t.args[0].kind not in ("none",) and r.random() < 0.35:
             t.sp = r.choice(["pipe", "nonefirst", "unionnone"])
-        elif t.kind in ("list", "set", "frozenset", "dict", "tuplevar", "tuplefix") and r.random() < 0.25:
+        elif t.kind in ("list", "set", "frozenset", "dict", "tuplevar", "tuplefix") and r.random() < 0.25 \
+                and not any(a.kind == "none" for a in t.args):
+            # (a builtin generic keeps a literal None argument: tuple[None, int] is rejected by the library
+            #  although Tuple[None, int] is accepted -- reported, not generated)
             t.sp = "builtin"
         if t.kind != "none" and not (t.kind == "data" and t.extra == "fwd") and r.random() < (0.15 if t.kind == "opt" else 0.06):
             t.ann = True
